@@ -28,6 +28,7 @@ package cache
 
 import (
 	"bytes"
+	"errors"
 	"sync"
 	"time"
 
@@ -184,6 +185,9 @@ func (hc *httpCache) FromBytes(data []byte) (err error) {
 	return
 }
 
+// ErrInvalidStoreData the data of store is invalid
+var ErrInvalidStoreData = errors.New("the data of store is invalid")
+
 // initFromStore init cache from store
 func (hc *httpCache) initFromStore() (err error) {
 	if hc.store == nil || len(hc.key) == 0 {
@@ -193,7 +197,31 @@ func (hc *httpCache) initFromStore() (err error) {
 	if err != nil {
 		return
 	}
-	return hc.FromBytes(data)
+	// 先恢复至临时的缓存，校验通过后再使用，
+	// 避免数据不完整或被损坏时，缓存只被更新了部分字段
+	tmp := &httpCache{}
+	err = tmp.FromBytes(data)
+	if err != nil {
+		return
+	}
+	// 只有hit（必须有响应数据）与hit for pass的缓存会被保存，且其有效期必然大于0
+	valid := tmp.expiredAt > 0
+	switch tmp.status {
+	case StatusHit:
+		valid = valid && tmp.response != nil && tmp.response.StatusCode != 0
+	case StatusHitForPass:
+	default:
+		valid = false
+	}
+	if !valid {
+		err = ErrInvalidStoreData
+		return
+	}
+	hc.status = tmp.status
+	hc.response = tmp.response
+	hc.createdAt = tmp.createdAt
+	hc.expiredAt = tmp.expiredAt
+	return
 }
 
 // saveToStore save cache to store
